@@ -509,6 +509,19 @@ func c06Gen(c *core.Ctx) {
 	for _, s := range []string{"a <<E 'b", "a <<E \"b", "a <<E ${x", "cat <<E $(", "a <<E `\n)    ${}", "a <<E $(\n)    ${}", "a <<E; 'b", "a <<-E <<F 'b\n", "{ a <<E 'b\n}", "echo ${x", "echo 'x", "f \"x", "a b ${x", "a=1 b $(", "a; b ${", "a `x", "echo $((1", "a | | $(", "a ) 'x", "a ;; \"${", "fi ${x", "a | | b c d e", "cat <<E <<F\nx\nE\ny\nF\n", "echo $(cat <<E\nx\nE\n) $(cat <<F\ny\nF\n)\n", "a `cat <<E\nx\nE\n` b\n", "{ cat <<E\nx\nE\n}\n", "cat <<E\nx\n", "echo $(a $(b) `c`) $((1+2))", "echo $(a | | b) 'x", "echo `a ) b` \"", "if a; then b; fi; )", "a <<E; b ) c\nx\nE\n", "$(( 1 ", "${x:-$(a | )}", "a\nb\n", "(a; b) | c & d", "{ a; } }", "for x in a b; do c; done done"} {
 		emit(s, "dedicated")
 	}
+	// a here-document is pending and the parser rejects a later token of the operator
+	// line: whether the lexer still reads the body (and which error is returned, how
+	// much is consumed) must not depend on who reaches the end of the line first
+	for _, head := range []string{"cat <<E", "cat <<-E <<F", "a | cat <<'E'", "x=1 cat <<E >f"} {
+		for _, tail := range []string{" & ;", " ; ;", " | ;", " && ;", " ; )", " & )", " )", " ; }", " ; fi", " ; done", " ; then", " ; do", " ; esac", " ;;", " & ;;", " | |", " & &", " ; ; # c", " & ; #"} {
+			for _, rest := range []string{"", "\n", "\nbody $x\nE\nF\nnext\n", "\nbody\n"} {
+				emit(head+tail+rest, "heredoc-pending+parser-error")
+			}
+		}
+	}
+	for _, s := range []string{"echo $(cat <<E & ; )", "echo $(cat <<E & ;\nb\nE\n) x\n", "echo `cat <<E & ;`", "echo `cat <<E ; ;\nb\nE\n` x\n", "{ cat <<E & ; }", "{ cat <<E & ;\nb\nE\n}\n", "( cat <<E | ; )\nb\nE\n", "if cat <<E & ; then b; fi\nb\nE\n", "f() { cat <<E ; ; }\nb\nE\n", "echo \"$(cat <<E & ;\nb\nE\n)\"\n", "cat <<E $(a & ;) \nb\nE\n", "cat <<E & ; # one\nbody # two\nE\n# three\necho next\n"} {
+		emit(s, "heredoc-pending+parser-error")
+	}
 	// arithmetic: expressions with 0, 1 and >=2 faults, through Eval and Expand
 	arith := []string{"1 + 2", "x = 5", "1 1 $", "08 + 1/0", "(1=2) + (y=7)", "x = 1 +", "1/0 + (y=8)", "(y=8) + 1/0", "x++ + ++y", "1 ? x=2 : (y=3)", "0 && (x=1)", "1 || 1/0", "a b", "1 +* 2", "$", "((1)", "1 << -1", "x = y = z = 4", "y += x++ * 2", "09", "z = 1 1", "(x=1) , 2", "x++ @", "(x = 1) @", "(x += 1)@", "y = 2 #", "x = 5 $", "(x = 1) + (y = 2) .", "++x ]", "x y @", "1 2 3 $ 4", "(1) (2) #", "a b c @ d", "1 1 1 1 1 1 $", "2 2 `"}
 	for i, e := range arith {
